@@ -428,7 +428,16 @@ func (rl *respDeserializer) getDouble(line string) (value respDouble, valid bool
 	return respDouble(value64), true
 }
 
+// the declared element count of an aggregate can only be right if at least that many bytes follow;
+// anything else is incomplete input (the count comes from the client and may be huge)
+func (rl *respDeserializer) plausibleCount(count int) bool {
+	return count <= len(rl.content)-rl.pos
+}
+
 func (rl *respDeserializer) getNextArray(count int) (value respArray, valid bool) {
+	if !rl.plausibleCount(count) {
+		return
+	}
 	a := make(respArray, 0, count)
 
 	for i := 0; i < count; i++ {
@@ -443,6 +452,9 @@ func (rl *respDeserializer) getNextArray(count int) (value respArray, valid bool
 }
 
 func (rl *respDeserializer) getNextMap(pairs int) (value respMap, valid bool) {
+	if !rl.plausibleCount(pairs) {
+		return
+	}
 	m := newRespMapSized(pairs)
 
 	for i := 0; i < pairs; i++ {
@@ -462,6 +474,9 @@ func (rl *respDeserializer) getNextMap(pairs int) (value respMap, valid bool) {
 }
 
 func (rl *respDeserializer) getNextAttributeMap(pairs int) (value respAttributeMap, valid bool) {
+	if !rl.plausibleCount(pairs) {
+		return
+	}
 	m := make(respAttributeMap, pairs)
 
 	for i := 0; i < pairs; i++ {
@@ -481,6 +496,9 @@ func (rl *respDeserializer) getNextAttributeMap(pairs int) (value respAttributeM
 }
 
 func (rl *respDeserializer) getNextSet(count int) (value respSet, valid bool) {
+	if !rl.plausibleCount(count) {
+		return
+	}
 	s := make(respSet, count)
 
 	for i := 0; i < count; i++ {
@@ -496,6 +514,9 @@ func (rl *respDeserializer) getNextSet(count int) (value respSet, valid bool) {
 }
 
 func (rl *respDeserializer) getNextPush(count int) (value respPush, valid bool) {
+	if !rl.plausibleCount(count) {
+		return
+	}
 	a := make([]respValue, 0, count)
 	p := respPush{}
 
